@@ -182,7 +182,7 @@ def stepAcc (acc : Acc) (op : Op) (res : Res) (rowsAfter : Store) : Acc :=
         | .ok x _ L =>
           match typeOK m c req pool res with
           | some d =>
-            let Lm := clamp d lo hi
+            let Lm := leaseFor d lo hi (remainingOf m.rows c x now')
             let rows' := put m.rows (grantRow c x now' Lm opts)
             ({ m with rows := rows', now := m.now + 2 * m.step },
              if Lm != L then some s!"lease model={Lm} impl={L}" else none)
